@@ -108,6 +108,7 @@ type Encoder struct {
 	primary    bool
 	dual       bool
 	wtSeen     map[string]bool
+	nonLocalKeys map[string]bool
 }
 
 type loopInfo struct {
@@ -522,9 +523,31 @@ func edgeCond(e *Encoder, from, to *ssa.BasicBlock, idx int) string {
 	return "true"
 }
 
+// rootedAtAlloc: the address is a local Alloc or a field/element path below one (the Alloc itself
+// may escape; what matters is that the object did not exist when the function was entered).
+func rootedAtAlloc(v ssa.Value) bool {
+	for {
+		switch x := v.(type) {
+		case *ssa.Alloc:
+			return true
+		case *ssa.FieldAddr:
+			v = x.X
+		case *ssa.IndexAddr:
+			if _, ok := x.X.Type().Underlying().(*types.Pointer); !ok {
+				return false // element of a slice: backing array unknown
+			}
+			v = x.X
+		default:
+			return false
+		}
+	}
+}
+
 // memKeysWritten conservatively lists the memory keys written in a set of blocks; all=true if unknown.
 func (e *Encoder) memKeysWritten(blocks map[*ssa.BasicBlock]bool) (keys map[string]types.Type, all bool) {
 	keys = map[string]types.Type{}
+	e.nonLocalKeys = map[string]bool{}
+	local := false // the store being classified goes through an address rooted at a local Alloc
 	// shape: 0 both, 1 flat only, 2 array only
 	var addShaped func(t types.Type, shape int)
 	addShaped = func(t types.Type, shape int) {
@@ -538,17 +561,25 @@ func (e *Encoder) memKeysWritten(blocks map[*ssa.BasicBlock]bool) (keys map[stri
 		default:
 			if shape != 2 {
 				keys[e.c.memKey(t)] = t
+				if !local {
+					e.nonLocalKeys[e.c.memKey(t)] = true
+				}
 			}
 			if shape != 1 {
 				keys[e.c.arrKey(t)] = t
+				if !local {
+					e.nonLocalKeys[e.c.arrKey(t)] = true
+				}
 			}
 		}
 	}
 	addType := func(t types.Type) { addShaped(t, 0) }
 	for b := range blocks {
 		for _, in := range b.Instrs {
+			local = false
 			switch in := in.(type) {
 			case *ssa.Store:
+				local = rootedAtAlloc(in.Addr)
 				switch in.Addr.(type) {
 				case *ssa.FieldAddr, *ssa.Alloc, *ssa.Global:
 					addShaped(in.Val.Type(), 1)
